@@ -202,6 +202,8 @@ class GeomCache:
                 return ("spec\tinterp\t" + esc(g("d", "")),)
             if tag == "rect":
                 vals = [float(g(k, "0") or 0) for k in ("x", "y", "width", "height", "rx", "ry")]
+                if (g("rx") or "").strip() and (g("ry") or "").strip() and (vals[4] == 0 or vals[5] == 0):
+                    vals[4] = vals[5] = 0.0  # both radii given, one of them zero: square corners (SVG 1.1 §9.2; a lone radius is copied)
                 return ("spec\tshape\trect\t" + " ".join(hexf(v) for v in vals),)
             if tag == "circle":
                 vals = [float(g(k, "0") or 0) for k in ("r", "cx", "cy")]
